@@ -1,4 +1,4 @@
-CONSTANTS MaxPieces = 4 LongLens = {0, 260} Emit = TRUE SmallBufs = FALSE
+CONSTANTS MaxPieces = 4 LongLens = {0, 1100} Emit = TRUE SmallBufs = FALSE
 INIT Init
 NEXT Next
 INVARIANTS Dump
